@@ -110,7 +110,9 @@ func checkC08(p *load.Program, r *kit.Report) {
 	importRules(p, r, "C17", "a header that was removed from a branch must also leave its hash map, or later submissions are answered \"already known\" / find a parent that is gone", 2, nil, "SHRINK-SIBLING")
 	importRules(p, r, "C09", "parent lookup, duplicate test and the depth test all use the stored hash→height labels: a wrong label gives a wrong verdict", 11, nil, "HEIGHT-LABEL")
 	importRules(p, r, "C11", "the `marked invalid` verdict after a restart comes from the list load builds: stored hashes ∪ every configured hash", 2,
-		func(o *kit.Obligation) bool { return strings.HasPrefix(o.Construct, "load/invalid-list") || strings.HasPrefix(o.Construct, "load/every-configured") }, "MERGE-SHAPE")
+		func(o *kit.Obligation) bool {
+			return strings.HasPrefix(o.Construct, "load/invalid-list") || strings.HasPrefix(o.Construct, "load/every-configured")
+		}, "MERGE-SHAPE")
 	r.Rule("CONFIG-AS-GIVEN", "the MaxBranchDepth the depth test reads is the caller's: Config.MaxBranchDepth is written nowhere but in DefaultConfig's literal, and NewRepository stores the config it was given (0 means `no fork below the tip`, it is not a request for the default)", 2)
 	checkConfigAsGiven(p, r, "CONFIG-AS-GIVEN")
 	r.NotDecided = "that each verdict equals the reference model's for adversarial inputs; byte-equality of a later Save; behaviour over histories."
@@ -494,7 +496,6 @@ func extractOf(call *ssa.Call, idx int) ssa.Value {
 	return nil
 }
 
-
 // checkConfigAsGiven: nothing rewrites Config.MaxBranchDepth and NewRepository keeps the caller's
 // config object.
 func checkConfigAsGiven(p *load.Program, r *kit.Report, rule string) {
@@ -553,7 +554,6 @@ func checkConfigAsGiven(p *load.Program, r *kit.Report, rule string) {
 	}
 	r.Check(why == "", rule, "NewRepository/config", posOf(p, nr.Blocks[0].Instrs[0]), "Repository.config is the caller's config", why)
 }
-
 
 // invalidMemoGuard recognises `if _, marked := repo.<memo>[hash]; marked { refuse }` where <memo> is
 // a map field of Repository that the reference tree does not have, and returns the not-marked edges.
